@@ -53,7 +53,7 @@ EmitPerConfig == (pc = 0 /\ fault = "none" /\ mal = NoMal) =>
     /\ PrintT(<<"REPLAY", ToJson([spec |-> "Stark", config |-> cfg.name, mode |-> "marker",
                                   model |-> [zk |-> cfg.zk, prep |-> cfg.prep, lookups |-> cfg.lookups, pubvals |-> cfg.pubvals, proto |-> cfg.proto,
                                              roots |-> 2 ^ CapLog(cfg.name), digest |-> DigestElems(cfg.name)]])>>)
-    /\ \A q \in ParamsOf(cfg) \cup OutOfRangeCounts(cfg), o \in (IF q \in ParamsOf(cfg) THEN {"inc", "dec"} ELSE {}) \cup {"zero", "huge", "huger"} :
+    /\ \A q \in ParamsOf(cfg) \cup OutOfRangeCounts(cfg) : \A o \in (IF q \in ParamsOf(cfg) THEN {"inc", "dec"} ELSE {}) \cup {"zero", "huge", "huger"} :
           PrintT(<<"REPLAY", ToJson([spec |-> "Stark", config |-> cfg.name, mode |-> "malformed", alter |-> [target |-> q, op |-> o],
                                     model |-> [refused_at |-> "param", validated |-> TRUE]])>>)
     /\ \A k \in Kinds : Present(cfg, k) \/
